@@ -376,8 +376,13 @@ func toSMTPErr(err error) *smtp.SMTPError {
 	if smtpErr, ok := err.(*smtp.SMTPError); ok {
 		log.Printf("plain SMTP error returned, this is deprecated")
 		res.Code = smtpErr.Code
-		res.EnhancedCode = smtpErr.EnhancedCode
 		res.Message = smtpErr.Message
+		if smtpErr.EnhancedCode != smtp.EnhancedCodeNotSet && smtpErr.EnhancedCode != smtp.NoEnhancedCode {
+			res.EnhancedCode = smtpErr.EnhancedCode
+		} else if class := res.Code / 100; class == 4 || class == 5 {
+			// Same as above: the DSN needs a status of the basic code's class.
+			res.EnhancedCode = smtp.EnhancedCode{class, 0, 0}
+		}
 	}
 
 	return res
